@@ -60,7 +60,8 @@ CORPUS = [
      ["VR", G(0)], ["B", 0], ["VX", G(0)], ["F"], ["VX", G(0)], ["VR", G(0, 1)], ["B", 0], ["VR", G(0, 1)], ["VR", G(0)]],
     # expiry: fresh, cached, at the boundary second, after it; cache sweeps
     [["N", 1, 30], ["N", 2, 200], ["VR", G(0)], ["VR", G(1)], ["T", 29], ["VR", G(0)], ["T", 1], ["VR", G(0)], ["VV", G(0)],
-     ["T", 1], ["VR", G(0)], ["VV", G(0)], ["VX", G(0)], ["T", 100], ["VR", G(1)], ["T", 61], ["T", 61], ["VR", G(1)]],
+     ["VX", G(0)], ["ET", 0, 0], ["VR", G(0)], ["T", 1], ["VR", G(0)], ["VV", G(0)], ["VX", G(0)], ["ET", 0, 0], ["VR", G(0)],
+     ["T", 100], ["VR", G(1)], ["T", 61], ["T", 61], ["VR", G(1)]],
     # restart with another key and back; revocations persist
     [["N", 1, 900], ["N", 2, 900], ["VR", G(0)], ["B", 1], ["K", 8], ["VR", G(0)], ["VV", G(1)], ["N", 3, 900], ["VR", G(2)],
      ["K", 7], ["VR", G(0)], ["VR", G(1)], ["VV", G(2)], ["D", 1], ["VR", G(1)]],
@@ -231,24 +232,52 @@ def run(ck):
                      replay={"log": binp[-3000:]}, found_input=False)
         return
 
-    nh = 14 if quick else 150
-    hist = [list(h) for h in CORPUS] + [gen_history(ck.rng, ck.rng.randint(12, 20)) for _ in range(nh)]
-    mut_n = 60 if quick else 1500
+    nh = 4 if quick else 150
+    hist = [list(h) for h in CORPUS] + [gen_history(ck.rng, ck.rng.randint(10, 16) if quick else ck.rng.randint(12, 20))
+                                        for _ in range(nh)]
+    mut_n = 30 if quick else 1500
     mut_explicit = []
     if ck.replay_file:
         rp = json.load(open(ck.replay_file))["replay"]
         hist = [rp["ops"]] if "ops" in rp else []
         mut_explicit = rp.get("mutations", [])
         mut_n = 0 if (hist or mut_explicit) else mut_n
-    inp, outp = os.path.join(ck.work, "in.json"), os.path.join(ck.work, "out.json")
-    results = []
-    if hist:
-        json.dump([{"id": i, "ntok": NTOK, "ops": h} for i, h in enumerate(hist)], open(inp, "w"))
+    # the harness is dominated by Argon2id (32 MiB per decryption): histories run in parallel processes (each process has
+    # its own caches, revocation table and key), the alteration run beside them
+    from concurrent.futures import ThreadPoolExecutor
+    nshard = max(1, min(4 if quick else 8, len(hist)))
+    shards = [[(i, h) for i, h in enumerate(hist) if i % nshard == k] for k in range(nshard)]
+
+    def run_shard(k):
+        inp, outp = os.path.join(ck.work, "in%d.json" % k), os.path.join(ck.work, "out%d.json" % k)
+        json.dump([{"id": i, "ntok": NTOK, "ops": h} for i, h in shards[k]], open(inp, "w"))
         rc, log = vf.run_bin(binp, "^TestVerifC21$", {"VERIF_IN": inp, "VERIF_OUT": outp}, timeout=1500)
         if rc != 0 or not os.path.exists(outp):
-            ck.violation("harness-run", "harness failed:\n" + log[-1500:], replay={"log": log[-3000:]}, found_input=False)
-            return
-        results = json.load(open(outp))
+            return None, log
+        return json.load(open(outp)), log
+
+    def run_mut():
+        inp, outp = os.path.join(ck.work, "inm.json"), os.path.join(ck.work, "outm.json")
+        json.dump({"seed": mut_seed, "n": mut_n, "explicit": mut_explicit, "router": 6}, open(inp, "w"))
+        rc, log = vf.run_bin(binp, "^TestVerifC21Mut$", {"VERIF_IN": inp, "VERIF_OUT": outp}, timeout=1500)
+        if rc != 0 or not os.path.exists(outp):
+            return None, log
+        return json.load(open(outp)), log
+
+    mut_seed = ck.rng.randint(1, 2 ** 31)
+    results, mres, mlog = [], None, ""
+    with ThreadPoolExecutor(max_workers=nshard + 1) as ex:
+        futs = [ex.submit(run_shard, k) for k in range(nshard)] if hist else []
+        mfut = ex.submit(run_mut) if (mut_n or mut_explicit) else None
+        for f in futs:
+            r, log = f.result()
+            if r is None:
+                ck.violation("harness-run", "harness failed:\n" + log[:1500], replay={"log": log[:3000]}, found_input=False)
+                return
+            results += r
+        if mfut:
+            mres, mlog = mfut.result()
+    results.sort(key=lambda r: r["id"])
 
     # ---- property oracle on the real decisions
     classes, ndec, nsteps, interleaved = set(), 0, 0, 0
@@ -284,14 +313,10 @@ def run(ck):
             ck.sample({"ops": h[:8], "decisions": [s["dec"] for s in res["steps"]][:12]})
 
     # ---- altered strings
-    mres = None
     if mut_n or mut_explicit:
-        json.dump({"seed": ck.rng.randint(1, 2 ** 31), "n": mut_n, "explicit": mut_explicit, "router": 6}, open(inp, "w"))
-        rc, log = vf.run_bin(binp, "^TestVerifC21Mut$", {"VERIF_IN": inp, "VERIF_OUT": outp}, timeout=1500)
-        if rc != 0:
-            ck.violation("harness-run-mut", "alteration harness failed:\n" + log[-1500:], replay={"log": log[-3000:]}, found_input=False)
+        if mres is None:
+            ck.violation("harness-run-mut", "alteration harness failed:\n" + mlog[:1500], replay={"log": mlog[:3000]}, found_input=False)
             return
-        mres = json.load(open(outp))
         if mres["err"] or mres["base"] != [1, 1, 1]:
             ck.violation("genuine-refused", "a fresh token string is not accepted by all validators: %s %s" % (mres["base"], mres["err"]),
                          replay={"mutations": []})
